@@ -258,6 +258,28 @@ func ruleScanClass(c *Ctx) []Ob {
 					continue
 				}
 				found = true
+				// the value may come from a helper that maps the Go kind to the type pointer or 0: evaluate it per kind
+				if hc, ok := st.Val.(*ssa.Call); ok && hc.Call.StaticCallee() != nil && hc.Call.StaticCallee().Blocks != nil && len(hc.Call.StaticCallee().Params) == 1 && len(domCondsKindOnly(b)) == 0 && hc.Call.StaticCallee().Name() != "rtTypePtr" {
+					h := hc.Call.StaticCallee()
+					var missing []string
+					for n, v := range need {
+						w := &kindWalker{c: c, fn: h, param: h.Params[0], kind: v, pkg: pkgReflect, env: map[ssa.Value]kval{}, symCalls: map[string]bool{"rtTypePtr": true}}
+						end, _, at := w.run("-")
+						okK := false
+						if ret, isRet := at.(*ssa.Return); isRet && end == "return" && len(ret.Results) == 1 {
+							if rv := w.val(ret.Results[0], 0); rv.sym != "" {
+								okK = true
+							}
+						}
+						if !okK {
+							missing = append(missing, n)
+						}
+					}
+					sort.Strings(missing)
+					s.check(len(missing) == 0, "newTType:MallocAbiType", c.InstrPos(st), "set for every pointer-bearing Go kind, conditioned on the kind only (helper "+h.Name()+" evaluated per kind)",
+						fmt.Sprintf("MallocAbiType is not set for kinds %v / is subject to further conditions: such values would be placed in memory the GC does not scan (dangling pointers after a collection) and that is not zeroed (absent fields keep garbage)", missing))
+					continue
+				}
 				cs, subj := caseSet(b, "")
 				have := map[int64]bool{}
 				for _, v := range cs {
@@ -716,4 +738,19 @@ func isRefillHelper(fn *ssa.Function) bool {
 		}
 	}
 	return p0 && nb && nn && !other
+}
+
+// domCondsKindOnly: the conditions dominating b that are not inherited from the function entry's straight-line prologue
+// (used to require that a store is unconditional).
+func domCondsKindOnly(b *ssa.BasicBlock) []Cond {
+	var out []Cond
+	for _, cd := range domConds(b) {
+		// a condition whose If block dominates every return of the function and whose other edge leaves the function is a
+		// prologue guard (e.g. a cache hit returning early)
+		if leavesFunction(cd.If.Block().Succs[0]) || leavesFunction(cd.If.Block().Succs[1]) {
+			continue
+		}
+		out = append(out, cd)
+	}
+	return out
 }
